@@ -45,6 +45,10 @@ CLAIMED = {
          "The laws (RC.RC = id, RC of a subsequence, circular windows) hold on the value functions for all sequences of length <= 4 (quick) or <= 5 (thorough) over a 6/8-symbol sub-alphabet including '-', '[' and ']'; all histories of 3-5 (quick) or 4-6 (thorough) operations (new, copy, sub, rc, set, mutate, recycle, join) over <= 3 objects are enumerated and executed on the real code with ALL live objects compared after every step and checked for shared memory; the three complement tables are compared with the derived Bio!Comp on every symbol.",
          "Trusted: TLC, the projection of a real object onto (String, Qualities, pairing_mismatches), hook H1 (poisoning of recycled slices). Bounded: lengths <= 5 exhaustively; <= 1200 symbols, 6 objects, 40 operations at random. Join only on receivers without qualities.",
          "DESIGN.md 5 C07"),
+ "C02": ("TLC checks a scanner automaton (JsonHeader.tla) against the JSON string grammar on every bounded title line, and an abstract write/read/write state machine (RoundTrip.tla); every exported case is replayed on the real header parsers, chunk parsers and formatters; random records, title lines and `obiconvert | obiconvert` pipelines are recorded and judged event by event by a TLC trace specification",
+         "model_checking: scanner = JSON grammar for all string contents over 6 character classes up to length 4 (quick) or 6-7 (thorough) x 5 object shapes x 5 tails (the as-written scanner is a required negative test: TLC must find the escaped-quote counter-example); round-trip laws (Read(Write(r)) = r, Write is a fixed point, clamp 93, shifts, folding) for 6-11 lengths x score patterns x {33,64}^2 x 11 annotation shapes; all cases replayed on the real code.",
+         "Unicode, float and big-int value fidelity and the binaries are covered by TLC-validated traces (600-10 000 events plus 108-324 pipelines per run), not enumerated; object-first title lines only. A command failure that does not reproduce on an immediate re-run is noted in the evidence, not alarmed.",
+         "DESIGN.md 5 C02"),
 }
 
 NOT_YET = "check not built yet in this round (planned, see DESIGN.md 10); not claimed"
